@@ -50,3 +50,13 @@ pub fn heap_range() -> Range<Address> {
 pub fn available_range() -> Range<Address> {
     vm_layout().available_start()..vm_layout().available_end()
 }
+
+/// Hooks for the external verification harness.
+#[cfg(feature = "mmtk_verif")]
+pub mod verif_hooks {
+    pub use super::map::{CreateFreeListResult, VMMap};
+    #[cfg(target_pointer_width = "64")]
+    pub use super::map32::Map32;
+    pub use super::mmapper::csm::ChunkStateMmapper;
+    pub use super::mmapper::Mmapper;
+}
